@@ -8,8 +8,8 @@
 out="$1"; demo="$2"; dest="$3"; demo_args="$4"; exist_args="$5"
 # fixed path: stageleft names its staged macros after the checkout path, so the trybuild cache in
 # the shared target dir is only valid for one path; confirmations therefore run one at a time
-wt=/tmp/cf_wt
-export CARGO_NET_OFFLINE=true CARGO_TARGET_DIR=/tmp/cf_target RUST_BACKTRACE=0
+wt=${CF_WT:-/tmp/cf_wt}
+export CARGO_NET_OFFLINE=true CARGO_TARGET_DIR=${CF_TARGET:-/tmp/cf_target} RUST_BACKTRACE=0
 log="$out/confirmed.txt"
 : > "$log"
 git -C /repo worktree add --detach "$wt" HEAD -q || { echo "worktree failed" >> "$log"; exit 2; }
